@@ -44,10 +44,10 @@ type pkgConf struct {
 
 var targets = []pkgConf{
 	{dir: "tasklane", chans: true, ctx: true},
-	{dir: "util/netutil"},
+	{dir: "util/netutil", chans: true},
 	{dir: "util/ioutil", chans: true},
-	{dir: "httpd"},
-	{dir: "logger"},
+	{dir: "httpd", chans: true},
+	{dir: "logger", chans: true},
 	{dir: "util/osutil", vos: true, files: []string{"file.go"}},
 }
 
@@ -132,6 +132,27 @@ func main() {
 		targets = append(targets, pkgConf{abs: d, path: p, dir: "extra", chans: true, ctx: true})
 		targetPkgs[p] = true
 	}
+	// packages of the module that the targets import and that did not exist when this list was
+	// written (code moved into a new internal package) are instrumented with every rewrite
+	if len(want) == 0 {
+		for i := 0; i < len(targets); i++ {
+			if targets[i].abs != "" {
+				continue
+			}
+			for _, imp := range internalImports(filepath.Join(*repo, targets[i].dir)) {
+				d := strings.TrimPrefix(imp, "github.com/whoisnian/glb/")
+				if knownPkgs[d] || targetPkgs[imp] || strings.HasPrefix(d, "zzverif/") {
+					continue
+				}
+				if st, err := os.Stat(filepath.Join(*repo, d)); err != nil || !st.IsDir() {
+					continue
+				}
+				fmt.Fprintf(os.Stderr, "vinstr: NOTE new package %s imported by %s is instrumented too\n", d, targets[i].dir)
+				targets = append(targets, pkgConf{dir: d, chans: true, ctx: targets[i].ctx})
+				targetPkgs[imp] = true
+			}
+		}
+	}
 	for _, t := range targets {
 		if len(want) > 0 && !want[t.dir] && t.abs == "" {
 			continue
@@ -152,6 +173,35 @@ func main() {
 	if err := os.WriteFile(filepath.Join(*out, "overlay.json"), data, 0o644); err != nil {
 		fatal("%v", err)
 	}
+}
+
+// knownPkgs are the module's packages at the time the target list was written; those not among
+// the targets use no synchronisation that would have to be modelled.
+var knownPkgs = map[string]bool{"ansi": true, "config": true, "daemon": true, "httpd": true, "logger": true, "tasklane": true,
+	"util/fsutil": true, "util/ioutil": true, "util/netutil": true, "util/osutil": true, "util/strutil": true}
+
+// internalImports lists the module-internal import paths of the non-test files in dir.
+func internalImports(dir string) []string {
+	seen := map[string]bool{}
+	var out []string
+	files, _ := filepath.Glob(filepath.Join(dir, "*.go"))
+	for _, f := range files {
+		if strings.HasSuffix(f, "_test.go") {
+			continue
+		}
+		af, err := parser.ParseFile(token.NewFileSet(), f, nil, parser.ImportsOnly)
+		if err != nil {
+			continue
+		}
+		for _, im := range af.Imports {
+			p, _ := strconv.Unquote(im.Path.Value)
+			if strings.HasPrefix(p, "github.com/whoisnian/glb/") && !seen[p] {
+				seen[p] = true
+				out = append(out, p)
+			}
+		}
+	}
+	return out
 }
 
 var constApplied = map[string]bool{}
